@@ -46,6 +46,8 @@ pub fn reports_of(report: &libpatch::patch::FilePatchApplyReport) -> Vec<(bool, 
 
 
 pub struct Obs { pub panic: bool, pub rep: Vec<(bool, isize, isize, usize)>, pub out: Vec<Vec<u8>>, pub deleted: bool,
+                 /// report.ok() as the tool reads it, and whether it says what the hunk reports say
+                 pub ok_flag: bool, pub flags_consistent: bool,
                  pub rb_panic: bool, pub rb_same: bool, pub rb_out: Vec<Vec<u8>> }
 
 /// Run the real apply + rollback for one (file, hunks, direction, limit).
@@ -54,10 +56,16 @@ pub fn observe(file_lines: &[Vec<u8>], fp: &TextFilePatch, dir: PatchDirection, 
     let mut mf = before.clone();
     let res = panic::catch_unwind(AssertUnwindSafe(|| fp.apply(&mut mf, dir, lim, &AnalysisSet::default(), &fn_analysis_note_noop)));
     let report = match res {
-        Err(_) => return Obs { panic: true, rep: vec![], out: vec![], deleted: false, rb_panic: false, rb_same: true, rb_out: vec![] },
+        Err(_) => return Obs { panic: true, rep: vec![], out: vec![], deleted: false, ok_flag: false, flags_consistent: true, rb_panic: false, rb_same: true, rb_out: vec![] },
         Ok(r) => r,
     };
     let rep = reports_of(&report);
+    // after an application every hunk is either applied or failed (never skipped), and ok()/failed() say so
+    let n_applied = report.hunk_reports().iter().filter(|r| matches!(r, HunkApplyReport::Applied { .. })).count();
+    let n_failed = report.hunk_reports().iter().filter(|r| matches!(r, HunkApplyReport::Failed(_))).count();
+    let ok_flag = report.ok();
+    let flags_consistent = n_applied + n_failed == report.hunk_reports().len()
+        && ok_flag == (n_failed == 0 && n_applied == report.hunk_reports().len()) && report.failed() == (n_failed > 0);
     let out: Vec<Vec<u8>> = mf.content.iter().map(|l| l.to_vec()).collect();
     let mut m2 = mf.clone();
     let (rb_panic, rb_same) = match panic::catch_unwind(AssertUnwindSafe(|| fp.rollback(&mut m2, dir, &report))) {
@@ -65,7 +73,7 @@ pub fn observe(file_lines: &[Vec<u8>], fp: &TextFilePatch, dir: PatchDirection, 
         Ok(()) => (false, m2.content == before.content && m2.deleted == before.deleted && m2.permissions == before.permissions && m2.existed == before.existed),
     };
     let rb_out = m2.content.iter().map(|l| l.to_vec()).collect();
-    Obs { panic: false, rep, out, deleted: mf.deleted, rb_panic, rb_same, rb_out }
+    Obs { panic: false, rep, out, deleted: mf.deleted, ok_flag, flags_consistent, rb_panic, rb_same, rb_out }
 }
 
 fn unspell(line: &[u8], table: &[(Vec<u8>, String)]) -> String {
@@ -139,10 +147,11 @@ pub fn main(args: &[String]) -> i32 {
                              if g.2 != g.1 - stated { t.bad("offset_mismatch", ctx("reported offset != line - stated line")); } }
                 }
                 if o.deleted { t.bad("state_mismatch", ctx("apply of a Modify patch marked the file deleted")); }
+                if !o.flags_consistent { t.bad("report_inconsistent", ctx("a hunk is neither applied nor failed, or ok()/failed() contradict the hunk reports")); }
                 if o.rb_panic { t.bad("rollback_panic", ctx("rollback aborted")); }
                 else if !o.rb_same { t.bad("rollback_mismatch", ctx("apply followed by rollback is not the identity")); }
                 else { t.hit("rollback_ok"); }
-                let all_ok = o.rep.iter().all(|g| g.0);
+                let all_ok = o.ok_flag;
                 by_dir.entry(dir_s.to_string()).or_default().push((lim, all_ok, o.rep.clone(), o.out.clone()));
             }
         }
@@ -236,10 +245,11 @@ pub fn random_main(args: &[String]) -> i32 {
                 if o.panic { t.bad("apply_panic", ctx("apply panicked")); continue; }
                 if o.rep.iter().any(|g| g.0) { t.hit("runs_with_applied_hunk"); }
                 if o.rep.iter().any(|g| g.0 && (g.2 != 0 || g.3 != 0)) { t.hit("runs_with_offset_or_fuzz"); }
+                if !o.flags_consistent { t.bad("report_inconsistent", ctx("a hunk is neither applied nor failed, or ok()/failed() contradict the hunk reports")); }
                 if o.rb_panic { t.bad("rollback_panic", ctx("rollback aborted")); }
                 else if !o.rb_same { t.bad("rollback_mismatch", ctx("apply followed by rollback is not the identity")); }
                 else { t.hit("rollback_ok"); }
-                per_lim.push((lim, o.rep.iter().all(|g| g.0), o.rep.clone(), o.out.clone()));
+                per_lim.push((lim, o.ok_flag, o.rep.clone(), o.out.clone()));
             }
             for a in per_lim.iter() { for b in per_lim.iter() {
                 if a.0 < b.0 && a.1 { t.hit("fuzz_pairs_judged");
